@@ -3,6 +3,7 @@ package rsmtwin
 import (
 	"bytes"
 	"fmt"
+	"strings"
 
 	dragonboat "github.com/lni/dragonboat/v4"
 	"github.com/lni/dragonboat/v4/config"
@@ -193,6 +194,25 @@ func (h *harness) newReplicaAt(name string, id uint64, kind int, disk *simfs.Dis
 }
 
 const deploymentID = 0x51d
+
+// fsHook is the simfs environment of a saver's disk: when armed, the next
+// mutating file system operation first runs fn. The snapshotter touches the
+// disk between the moment the state machine has prepared a snapshot and the
+// moment the user state machine is asked to write it out, which is exactly
+// where a concurrent state machine may be updated by the apply worker.
+type fsHook struct{ fn func() }
+
+func (e *fsHook) FSOp(d *simfs.Disk, op simfs.Op, path string, size int, index int64) (error, int) {
+	// only the snapshotter's own operations (inside the temporary snapshot
+	// directory) qualify: the state machine lock is not held there, while it
+	// is held when an on disk state machine syncs
+	if e.fn != nil && (op == simfs.OpCreate || op == simfs.OpMkdir) && strings.Contains(path, ".generating") {
+		f := e.fn
+		e.fn = nil
+		f()
+	}
+	return nil, 0
+}
 
 // start does what a starting node does before the first entry is applied:
 // directory clean up, snapshot record of the log store into the LogReader,
